@@ -7,7 +7,7 @@ mkdir -p run/bin .locks replays evidence
 cp /repo/go.sum harness/go.sum
 (cd harness && go build -tags verif -o ../run/bin/harness . && go build -race -tags verif -o ../run/bin/harness_race .)
 mkdir -p lean/CoreDhcp/Generated
-for u in ipcalc:IPCalc dispatch6:Dispatch6 dispatch4:Dispatch4 serverid6:ServerID6 netmask:Netmask alloc4:Alloc4 handlers4:Handlers4 alloc6:Alloc6 loadplugins:LoadPlugins range4:Range4 fileplugin:FilePlugin config:Config prefix6:Prefix6 handlers6:Handlers6 setups:Setups start:Start storage:Storage ethernet:Ethernet serveloop:ServeLoop filesetup:FileSetup rangesetup:RangeSetup mainreg:MainReg; do
+for u in ipcalc:IPCalc dispatch6:Dispatch6 dispatch4:Dispatch4 serverid6:ServerID6 netmask:Netmask alloc4:Alloc4 handlers4:Handlers4 alloc6:Alloc6 loadplugins:LoadPlugins range4:Range4 fileplugin:FilePlugin config:Config prefix6:Prefix6 handlers6:Handlers6 setups:Setups start:Start storage:Storage ethernet:Ethernet serveloop:ServeLoop filesetup:FileSetup rangesetup:RangeSetup mainreg:MainReg configload:ConfigLoad; do
   run/bin/harness gen -unit "${u%%:*}" -out "lean/CoreDhcp/Generated/${u##*:}.lean"
 done
 (cd lean && lake build 2>&1 | tail -3)
